@@ -1945,6 +1945,7 @@ def run(ctx: vlib.Ctx):
     hook_items, hook_shown = [], []    # which __pre_deserialize__ CodeBuilder.get_declared_hook finds
     coq_defs = []
     coq_cases = []
+    full_cases = []     # the same cases for the model in which every decision goes through a translated function (KeyFull)
     dom_cases = []
     n_mismatch_oracle = 0
     for ci in range(n_classes):
@@ -2018,6 +2019,13 @@ def run(ctx: vlib.Ctx):
         ctx.hist("pre_hook", "none" if not hooked else f"ops={len(o_hook(spec))} in {'K' if spec['levels'][-1].get('hook') is not None else 'ancestor'}")
         ctx.hist("values", "ints and None" if nullable else "ints")
         coq_defs.append(f"Definition c{ci} : list level := {c_spec(spec)}.")
+        # the same class as the MRO of class bodies (nearest first) that the translated get_discriminator / get_config walk:
+        # the common parent `Base` with its Config discriminator is the last class of it
+        base_lv = [] if spec["discr"] is None else [
+            "(mkL [] (Some (mkCD false false None None None)), DObj " + (c_ostr(spec["discr"][1]) if spec["discr"][0] == "field" else "None") + ")"]
+        full_def = (f"Definition r{ci} : list dlevel := [" +
+                    "; ".join([f"({c_level(lv)}, {c_dw(lv)})" for lv in reversed(spec["levels"])] + base_lv) + "].")
+        uses_mixin = vlib.coq_bool(spec["mixin"] is not None)
         dfl = c_defaults(spec)
         dicts = []
         for ks in subsets(keys, rng, sub_max):
@@ -2058,6 +2066,8 @@ def run(ctx: vlib.Ctx):
             # all entry points agree? (if not, the oracle has already flagged at least one of them)
             obs0 = obs_all[0]
             coq_cases.append((ci, coq_defs[-1], f"(c{ci}, {c_hooks(spec)}, {c_discr(spec)}, {dfl}, {c_dict(d)}, {c_obs(obs0)})"))
+            full_cases.append((ci, coq_defs[-1] + "\n" + full_def,
+                               f"(c{ci}, {c_hooks(spec)}, {c_discr(spec)}, {dfl}, {c_dict(d)}, {c_obs(obs0)}, r{ci}, {uses_mixin})"))
             cases.append((spec, src, ents[0][0], d, obs0))
             if len(ctx.coverage["samples"]) < 6 and len(ks) >= 2 and rng.random() < 0.01:
                 ctx.sample({"class": src, "input": repr(d), "observed": repr(obs0)})
@@ -2081,13 +2091,30 @@ def run(ctx: vlib.Ctx):
     n = len(coq_cases)
     n_dom = n
     n_impl, n_ref = "impl-model(K4)-vs-from_dict", "keymodel(reference)-vs-from_dict"
+    impl_cases = coq_cases
+    if k4_ok and all(ctx.kernel_report.get(k, {}).get("ok") for k in ("K109a", "K109b")):
+        # the implementation side = KeyFull.impl_from_class: dispatcher test and discriminator of the MRO (K109a), declared
+        # hook (K109b), get_config / aliases / allowed keys / key plan (K4); the reference side stays the kernel-free keymodel
+        n_impl = "impl_from_class(K4,K109a,K109b)-vs-from_dict"
+        FULLT = "list level * list (option (list hookop)) * option (option string) * list Z * dict * observation * list dlevel * bool"
+        ok_impl = ("fun c => match c with (h, hk, dk, dfl, d, o, r, mx) => match impl_from_class r hk mx d with "
+                   "Ok (Body x) => observation_eqb (observe dfl x) o | _ => false end end")
+        ok_both = ("fun c => match c with (h, hk, dk, dfl, d, o, r, mx) => match impl_from_class r hk mx d with "
+                   "Ok (Body x) => observation_eqb (observe dfl x) o | _ => false end "
+                   "&& observation_eqb (observe dfl (keymodel (class_of h dk) (apply_hook (nearest_hook hk) d))) o end")
+        IMPL = ("KeyModel KeyImpl KeyProofs KeyCfg KeyRewrite KeyHook PyK_alias PyK_clsdiscr KeyDiscr KeyHookLookup KeyFull",
+                "From VerifGen Require Import K4 K109a K109b.", ["theories/KeyFull.vo"])
+        impl_cases = full_cases
+        impl_type = FULLT
+    else:
+        impl_type = CASE_TYPE
     if k4_ok:
-        bad, log = coq_check("c09_both", IMPL, coq_cases, ok_both, ctx)
+        bad, log = coq_check("c09_both", IMPL, impl_cases, ok_both, ctx, ctype=impl_type)
         if bad is None or bad:
             # attribute: run the two comparisons separately (on the disagreeing cases, or on all if Coq failed)
             sub = list(range(n)) if bad is None else bad[:2000]
             sub_cases = [coq_cases[i] for i in sub]
-            b1, l1 = coq_check("c09_impl", IMPL, sub_cases, ok_impl, ctx)
+            b1, l1 = coq_check("c09_impl", IMPL, [impl_cases[i] for i in sub], ok_impl, ctx, ctype=impl_type)
             b2, l2 = coq_check("c09_ref", REF, sub_cases, ok_ref, ctx)
             report(n_impl, None if b1 is None else [sub[i] for i in b1], l1, n)
             report(n_ref, None if b2 is None else [sub[i] for i in b2], l2, n_dom)
